@@ -236,7 +236,7 @@ def cobsde_trace(ctx):
 def crcde_trace(ctx):
     cargo_build(ctx, "h_core")
     # the bit-serial CRC model costs a few ms per corrupted case: thorough = 4x the frames, plus six shards with the
-    # exhaustive enumeration of every burst pattern up to 10 bits at every offset of four short frames each
+    # exhaustive enumeration of every burst pattern up to 10 bits at every offset of four short frames each (checksums up to 32 bits, frames up to 10 bytes)
     n = ctx.pick(7, 28)
     ndeep = 6 if ctx.tier == "thorough" else 0
     cmds = [([hbin("h_core"), "crc-de", "--n", str(n if i >= ndeep else 4), "--seed", str(ctx.seed * 100 + i)]
